@@ -36,6 +36,28 @@ func c06(c *Check) {
 		}
 		c.Req(ok, "C06/accepted-update-is-stored", funcName(fn), fn.Pos(), fmt.Sprint(len(paths), " success path(s)"), "a success path of UpdateClient does not execute SetClientState exactly once")
 	}
+	c.Rule("C06/passed-registration-is-stored", "every success path of the register-relayer proposal handler stores the proposal's (address, chains, addresses) exactly once: a passed proposal that narrows or rotates a registration replaces the old record, it is never skipped as 'already registered'", 2)
+	{
+		fn := c.F(clKeeper + "Keeper.HandleRegisterRelayer")
+		isReg := func(cs *CallSite) bool { return strings.HasSuffix(cs.Name, "keeper.(Keeper).RegisterRelayers") }
+		paths := c.PathCounts(fn, isReg)
+		ok := len(paths) > 0
+		for _, p := range paths {
+			if p.Count != 1 {
+				ok = false
+			}
+		}
+		c.Req(ok, "C06/passed-registration-is-stored", funcName(fn), fn.Pos(), fmt.Sprint(len(paths), " success path(s)"), "a success path of HandleRegisterRelayer does not call RegisterRelayers exactly once")
+		for _, cs := range c.P.CallsIn(fn) {
+			if isReg(cs) {
+				c.ArgIs(cs, "C06/passed-registration-is-stored", "RegisterRelayers.address", Macros{}, 2, "$2.Address")
+				c.ArgIs(cs, "C06/passed-registration-is-stored", "RegisterRelayers.chains", Macros{}, 3, "$2.Chains")
+				c.ArgIs(cs, "C06/passed-registration-is-stored", "RegisterRelayers.addresses", Macros{}, 4, "$2.Addresses")
+			}
+		}
+	}
+	c.Rule("C06/acknowledgement-verified-before-the-module-calls", "frozen table (shared with C02 / C05): the packet keeper accepts an acknowledgement only with the stored commitment of exactly that packet and the client's proof check (for a TSS counterparty: the TSS account's), so the privileged calls that follow (ack status, fee pay-out, sender callback) are never driven by an unproven message", 20)
+	c.FrozenFiltered("C02", "C06/acknowledgement-verified-before-the-module-calls", func(fn string) bool { return strings.HasSuffix(fn, "Keeper.AcknowledgePacket") })
 	c.Rule("C06/positive-answers-only-under-chain-match", "AuthRelayer / GetRelayerAddressOnOtherChain: every return whose boolean answer is not the constant false is dominated by the chain == chainName test on an element of the signer's record", 2)
 	for _, spec := range []struct {
 		fn  string
